@@ -2,10 +2,11 @@
    Only pinned statements (`Theorem name : statement. Proof. exact lemma. Qed.`) and
    `Print Assumptions`.  Models: Core/{Term,Typing,Sem,Machine}.v; proofs Core/MachineLemmas.v,
    Core/MachineCorrect.v, Core/MachineCorrect2.v, Core/ExecCorrect.v; examples Core/Examples.v;
-   jets Jets/JetSpec.v. *)
+   jets Jets/JetSpec.v, Jets/JetSpecSha.v, Jets/JetSpecAll.v; Values Core/ExecValue.v (over Value/*.v). *)
 From RS Require Import Lib.Tac Lib.Outcome Lib.Bits Ty.Ty Core.Prog Core.Term Core.Typing Core.Sem
   Core.Bounds Core.Limits Core.Machine Core.MachineLemmas Core.MachineCorrect Core.MachineCorrect2
-  Core.ExecCorrect Core.Examples Jets.JetSpec.
+  Core.ExecCorrect Core.Examples Jets.JetSpec Jets.JetSpecSha Jets.JetSpecAll Core.ExecValue Jets.JetShaCorrect.
+From RS Require Merkle.Sha256 Value.ValueModel Value.ValueRefine.
 Import ListNotations.
 Local Open Scope N_scope.
 
@@ -160,3 +161,116 @@ Theorem C05_example_assert :
              = Err (ReachedPrunedBranch (repeat 7 32), st).
 Proof. exact ex_assert_run. Qed.
 Print Assumptions C05_example_assert.
+
+(* 7. the result as a `Value` (byte-level model of src/value.rs, C10): for every well-formed Value
+   vin of the source type - whatever its buffer, offset and padding contents - for_program + input
+   + exec returns a well-formed Value v of the target type that denotes eval t [[vin]]; with a
+   zero-width target the code returns Value::unit().  Errors and marks as in C05_exec_correct. *)
+Theorem C05_exec_correct_value : forall prof jet_ty jet_cost jet_sem t A B,
+  jets_typed jet_ty jet_sem -> typed jet_ty t A B ->
+  check_program prof (bw A) (bw B) (bounds jet_cost t) = Ok tt ->
+  forall (vin : ValueModel.value) m0,
+    ValueRefine.WF vin -> ValueModel.vty vin = A -> length m0 = N.to_nat (machine_cells jet_cost t) ->
+    match eval jet_sem t (ValueRefine.absv vin) with
+    | ROk b => exists st v,
+        machine_exec_v prof jet_cost jet_sem t m0 (Some vin) = Ok (st, v) /\ ValueRefine.WF v /\
+        (0 < width B -> ValueModel.vty v = B /\ ValueRefine.absv v = b) /\
+        (width B = 0 -> v = ValueModel.v_unit /\ b = of_padded B []) /\
+        hwc st <= width A + width B + extra_cells (bounds jet_cost t) /\ hwc st <= msize m0 /\
+        hwf st <= extra_frames (bounds jet_cost t) + IO_EXTRA_FRAMES
+    | RErr e => exists st,
+        machine_exec_v prof jet_cost jet_sem t m0 (Some vin) = Err (err_of e, st) /\
+        hwc st <= width A + width B + extra_cells (bounds jet_cost t) /\ hwc st <= msize m0 /\
+        hwf st <= extra_frames (bounds jet_cost t) + IO_EXTRA_FRAMES
+    | RStuck => False
+    end.
+Proof. exact exec_master_value. Qed.
+Print Assumptions C05_exec_correct_value.
+
+Theorem C05_exec_correct_value_noinput : forall prof jet_ty jet_cost jet_sem t A B,
+  jets_typed jet_ty jet_sem -> typed jet_ty t A B ->
+  check_program prof (bw A) (bw B) (bounds jet_cost t) = Ok tt ->
+  forall a m0, width A = 0 -> has_ty a A = true -> length m0 = N.to_nat (machine_cells jet_cost t) ->
+    match eval jet_sem t a with
+    | ROk b => exists st v,
+        machine_exec_v prof jet_cost jet_sem t m0 None = Ok (st, v) /\ ValueRefine.WF v /\
+        (0 < width B -> ValueModel.vty v = B /\ ValueRefine.absv v = b) /\
+        (width B = 0 -> v = ValueModel.v_unit /\ b = of_padded B []) /\
+        hwc st <= width A + width B + extra_cells (bounds jet_cost t) /\ hwc st <= msize m0 /\
+        hwf st <= extra_frames (bounds jet_cost t) + IO_EXTRA_FRAMES
+    | RErr e => exists st,
+        machine_exec_v prof jet_cost jet_sem t m0 None = Err (err_of e, st) /\
+        hwc st <= width A + width B + extra_cells (bounds jet_cost t) /\ hwc st <= msize m0 /\
+        hwf st <= extra_frames (bounds jet_cost t) + IO_EXTRA_FRAMES
+    | RStuck => False
+    end.
+Proof. exact exec_master_value_noinput. Qed.
+Print Assumptions C05_exec_correct_value_noinput.
+
+(* the Value-level pipeline is the bit-level pipeline followed by the decoder of the window *)
+Theorem C05_machine_exec_v_bits : forall prof jet_cost jet_sem t m0 v p,
+  ValueModel.iter_padded v = Ok p -> ValueModel.vty v = src t ->
+  machine_exec_v prof jet_cost jet_sem t m0 (Some v) =
+  obind (machine_exec prof jet_cost jet_sem t m0 (Some (ValueModel.vty v, p)))
+        (fun r => obind (output_value (fst r) (tgt t)) (fun x => Ok (fst r, x))).
+Proof.
+  intros. rewrite (machine_exec_v_some prof jet_cost jet_sem t m0 v p) by assumption.
+  destruct (machine_exec prof jet_cost jet_sem t m0 (Some (ValueModel.vty v, p))) as [[st3 bits]| | |]; reflexivity.
+Qed.
+Print Assumptions C05_machine_exec_v_bits.
+
+(* zero-width targets: the Value returned has type 1, not the target type (observation, cf. C10) *)
+Theorem C05_output_value_zero_width : forall st,
+  output_value st (Prod One One) = Ok ValueModel.v_unit /\ ValueModel.vty ValueModel.v_unit = One /\ One <> Prod One One.
+Proof. exact output_value_zero_width. Qed.
+Print Assumptions C05_output_value_zero_width.
+
+(* 8. the extended jet dispatcher (SHA-256 family over Merkle/Sha256.v, parse_lock, parse_sequence,
+   secp256k1 field and scalar arithmetic): respects the jets' types, changes nothing on the jets
+   of the word-level table; the context jets compute SHA-256 (FIPS vectors through
+   init / add / finalize), the counter limits are those of sha256.h *)
+Theorem C05_jet_spec2_typed : jets_typed jet_spec2_ty jet_spec2.
+Proof. exact jet_spec2_typed. Qed.
+Print Assumptions C05_jet_spec2_typed.
+
+Theorem C05_jet_spec2_conservative : forall j a, find_g gtable j = None ->
+  jet_spec2 j a = jet_spec j a /\ jet_spec2_ty j = jet_spec_ty j.
+Proof. exact jet_spec2_old. Qed.
+Print Assumptions C05_jet_spec2_conservative.
+
+Theorem C05_jet_tables_disjoint :
+  forallb (fun s => match find_g gtable (j_id s) with None => true | Some _ => false end) jet_table = true.
+Proof. exact tables_disjoint. Qed.
+Print Assumptions C05_jet_tables_disjoint.
+
+Theorem C05_sha_ctx_abc :
+  match ctx_add (mkCtx [] 0 Sha256.sha_iv0) [97; 98; 99] with
+  | Some c => Sha256.bytes_of_state (ctx_finalize c) = Sha256.sha256 [97; 98; 99]
+  | None => False
+  end.
+Proof. exact ctx_abc. Qed.
+Print Assumptions C05_sha_ctx_abc.
+
+Theorem C05_sha_ctx_limits :
+  read_ctx (write_ctx (mkCtx [] (2 ^ 55) Sha256.sha_iv0)) = None /\
+  (exists c, read_ctx (write_ctx (mkCtx [] (2 ^ 55 - 1) Sha256.sha_iv0)) = Some c) /\
+  ctx_add (mkCtx (repeat 0 62) (2 ^ 55 - 1) Sha256.sha_iv0) [1; 2] = None /\
+  (exists c, ctx_add (mkCtx (repeat 0 62) (2 ^ 55 - 1) Sha256.sha_iv0) [1] = Some c).
+Proof. exact ctx_too_many_blocks. Qed.
+Print Assumptions C05_sha_ctx_limits.
+
+(* 9. the SHA-256 context jets compute SHA-256: for every message below the counter limit, adding it
+   to the initial context and finalising gives the digest of Merkle/Sha256.v (the hash of C09), and
+   adding a message in two pieces gives the same context as adding it in one *)
+Theorem C05_sha_ctx_correct : forall msg, N.of_nat (length msg) < MAX_COUNTER ->
+  exists c, ctx_add ctx0 msg = Some c /\ Sha256.bytes_of_state (ctx_finalize c) = Sha256.sha256 msg.
+Proof. exact sha_ctx_correct. Qed.
+Print Assumptions C05_sha_ctx_correct.
+
+Theorem C05_sha_ctx_add_app : forall m1 m2, N.of_nat (length (m1 ++ m2)) < MAX_COUNTER ->
+  match ctx_add ctx0 m1 with
+  | Some c1 => ctx_add c1 m2 = ctx_add ctx0 (m1 ++ m2)
+  | None => False
+  end.
+Proof. exact ctx_add_app. Qed.
+Print Assumptions C05_sha_ctx_add_app.
